@@ -158,6 +158,7 @@ def c06(rep, tier):
     r_cmp.run_value_symmetry(p, rep)
     r_table.run_missing_key_eq(p, rep)
     r_parsers.run_when_values(p, rep)
+    r_parsers.run_case_arm_reset(p, rep)
     r_pair.run_argflow(p, rep)
     rep.analysed["config:all"] = {"bodies": len(p.fns)}
 
@@ -342,6 +343,7 @@ def c03(rep, tier):
     r_verbatim.no_calls(p, rep, "<liquid_lib::stdlib::blocks::comment_block::Comment" + RT)
     r_parsers.run_comment_raw(p, rep)
     r_parsers.run_escape_closer(p, rep)
+    r_parsers.run_escape_span(p, rep)
     r_parsers.run_nodrop(p, rep)
     r_parsers.run_bodykeep(p, rep)
     r_parsers.run_source_verbatim(p, rep)
@@ -378,6 +380,8 @@ def c07(rep, tier):
     for v in sub.violations:
         if any(nm in v["key"] for nm in names):
             rep.viol(v["rule"], v["key"].split("|", 1)[1], v["where"], v["what"], v["detail"])
+    # a parsed path keeps no state between evaluations (a memoised index path replays the first evaluation's indices)
+    r_freeze.run_freeze(p, rep)
     rep.analysed["config:all"] = {"bodies": len(p.fns)}
 
 
